@@ -473,6 +473,17 @@ func (c *FnCtx) modFrame(con *Contract, env *specEnv) map[string][]string {
 				case "owned":
 					addRef("GH_owned", "(Array Int Bool)", c.refOf(a))
 				case "cell":
+					if isInterface(a.ty) {
+						// the variable a pointer carried by an interface value points to: it lives at this
+						// reference in exactly one cell heap (references come from one counter)
+						ref := app("vpay", a.t)
+						for _, h := range c.heapOrder {
+							if strings.HasPrefix(h, "HC_") {
+								addRef(h, c.heapSort[h], ref)
+							}
+						}
+						return
+					}
 					pt, ok := types.Unalias(a.ty).Underlying().(*types.Pointer)
 					if !ok {
 						specFail("cell of non-pointer")
